@@ -64,8 +64,12 @@ def generate_source_code(docstring, parsed):
 
         if not rule.name:
             # The name has to be the same whenever this description is parsed:
-            # a grammar that extends this one parses it again.
-            rule.name = f'_anonymous_{rules.index(rule)}'
+            # a grammar that extends this one parses it again. It also has to
+            # differ from the names in the grammars that this one extends.
+            depth, ancestor = 0, parsed.extends
+            while ancestor is not None:
+                depth, ancestor = depth + 1, ancestor.extends
+            rule.name = f'_anonymous_{depth}_{rules.index(rule)}'
 
         if rule.name in visited_names:
             raise Exception(
